@@ -11,6 +11,7 @@
 	{{- end }}
 	return fmt.Sprintf("{{ .PathFormat }}", {{ range $i, $arg := .Args }}
 	{{- if eq (index $.PathParams $i).Attribute.Type.Name "array" }}strings.Join({{ .VarName }}Slice, ",")
+	{{- else if eq (index $.PathParams $i).Attribute.Type.Name "bytes" }}string({{ .VarName }})
 	{{- else }}{{ .VarName }}
 	{{- end }}, {{ end }})
 {{- else }}
